@@ -7,24 +7,27 @@ package kex
 // ---- session crypter: framing of TO2 messages after ProveDevice (C05) ----------------
 
 //@ func kex.SessionCrypter.Decrypt
+//@   params s rand r
 //@   props C05 C02(functional) C10(sweep)
 //@   sweep bounds,panic,make,nilmem
-//@   requires @suite s.Cipher.MacAlg == 0 || macregistered(s.Cipher.MacAlg)
+//@   requires @suite (s.Cipher.MacAlg == 0 || macregistered(s.Cipher.MacAlg)) && encregistered(s.Cipher.EncryptAlg)
 //@   callassert Decrypt#1: @framing (s.Cipher.MacAlg == 0 && tag.Num == 16) || (s.Cipher.MacAlg != 0 && tag.Num == 17)
 //@   callassert Decrypt#1: @mac ? s.Cipher.MacAlg != 0 ==> bytes(expectedDigest) == MacOf(u(s.Cipher.MacAlg), bytes(s.SVK), u(mac0.Protected), u(*mac0.Payload))
 //@   callassert Decrypt#1: @object ? s.Cipher.MacAlg != 0 ==> u(arg0) == u(mac0.Payload.Val)
 //@   callassert Decrypt#1: @keys arg1 == s.Cipher.EncryptAlg && bytes(arg2) == bytes(s.SEK)
 
 //@ func kex.SessionCrypter.Encrypt
+//@   params s rand payload
 //@   props C05 C10(sweep)
 //@   sweep bounds,panic,make,nilmem
-//@   requires @suite s.Cipher.MacAlg == 0 || macregistered(s.Cipher.MacAlg)
+//@   requires @suite (s.Cipher.MacAlg == 0 || macregistered(s.Cipher.MacAlg)) && encregistered(s.Cipher.EncryptAlg)
 //@   callassert Encrypt#1: @keys arg1 == s.Cipher.EncryptAlg && bytes(arg2) == bytes(s.SEK) && u(arg3) == u(payload)
 //@   callassert Digest#1: @keys arg1 == s.Cipher.MacAlg && bytes(arg2) == bytes(s.SVK) && arg0.Payload != nil && u(arg0.Payload.Val) == u(enc0)
 //@   ensures @frame16 err == nil && s.Cipher.MacAlg == 0 ==> dyntype(result0, "*cose.Encrypt0Tag[any,[]byte]")
 //@   ensures @frame17 err == nil && s.Cipher.MacAlg != 0 ==> dyntype(result0, "*cose.Mac0Tag[cose.Encrypt0[any,[]byte],[]byte]")
 
 //@ func kex.Suite.New
+//@   params s xA c
 //@   nopaths
 //@   pure
 
@@ -39,6 +42,7 @@ package kex
 //@ spec macro suiteok(c) = encregistered(c.EncryptAlg) && (c.MacAlg == 0 || macregistered(c.MacAlg)) && (hsz(u(c.PRFHash)) == 32 || hsz(u(c.PRFHash)) == 48)
 
 //@ func kex.dhSymmetricKey
+//@   params other own p cipher
 //@   props C14 C05(functional) C02(functional) C10(sweep)
 //@   sweep bounds,panic,make,nilmem,nooverflow
 //@   requires @suite suiteok(cipher)
@@ -50,6 +54,7 @@ package kex
 //@   callassert KDF#1: @width len(arg1) == ByteLenOf(BigVal(u(p)))
 
 //@ func kex.ecdhSymmetricKey
+//@   params ecKey xA xB cipher
 //@   props C14 C05(functional) C02(functional) C10(sweep)
 //@   sweep bounds,panic,make,nilmem,nooverflow
 //@   requires @suite suiteok(cipher)
@@ -58,6 +63,7 @@ package kex
 //@   callassert KDF#1: @inputs arg0 == cipher.PRFHash && u(arg1) == u(shSe) && len(arg2) == 0
 
 //@ func kex.oaepSymmetricKey
+//@   params deviceRandom ownerRandom cipher
 //@   props C14 C05(functional) C02(functional) C10(sweep)
 //@   sweep bounds,panic,make,nilmem,nooverflow
 //@   requires @suite suiteok(cipher)
@@ -68,6 +74,7 @@ package kex
 //@   ensures @svklen err == nil ==> len(result1) == ite(cipher.MacAlg != 0, int(mackeysize(cipher.MacAlg)), 0)
 
 //@ func kex.ecdhParam.UnmarshalBinary
+//@   params p b
 //@   props C14 C10
 //@   sweep bounds,panic,make,nilmem
 //@   invariant loop#1: len(xb) <= 65535 && len(yb) <= 65535 && len(rb) <= 65535
@@ -76,6 +83,7 @@ package kex
 //@   ensures @lens err == nil ==> len(p.Pub) >= 1 && len(p.Pub) <= 131071 && len(p.Rand) <= 65535
 
 //@ func kex.ecdhParam.MarshalBinary
+//@   params p
 //@   props C14
 //@   sweep bounds,make
 //@   requires @sec1 len(p.Pub) >= 1 && len(p.Pub) <= 131071 && len(p.Pub) % 2 == 1
@@ -85,11 +93,13 @@ package kex
 // ASSUMED, a restore between any two steps leaves the next step's inputs unchanged) ------
 //@ spec func SuiteOf(U) U
 //@ func kex.CipherSuiteID.Suite
+//@   params id
 //@   nopaths
 //@   pure
 //@   ensures! u(result) == SuiteOf(u(id))
 
 //@ func kex.DHSession.MarshalCBOR
+//@   params s
 //@   props C14 C18 C10(sweep)
 //@   sweep bounds,panic,make
 //@   callsites Marshal 1
@@ -98,6 +108,7 @@ package kex
 //@   callassert Marshal#1: @params imp(s.a != nil, BigOf(bytes(persist.ParamA)) == BigVal(u(s.a))) && imp(s.xA != nil, BigOf(bytes(persist.ParamXA)) == BigVal(u(s.xA))) && imp(s.b != nil, BigOf(bytes(persist.ParamB)) == BigVal(u(s.b))) && imp(s.xB != nil, BigOf(bytes(persist.ParamXB)) == BigVal(u(s.xB)))
 
 //@ func kex.DHSession.UnmarshalCBOR
+//@   params s data
 //@   props C14 C18 C10(sweep)
 //@   sweep bounds,make
 //@   ensures @crypter ? err == nil ==> s.ID == persist.Cipher && u(s.Cipher) == SuiteOf(u(persist.Cipher)) && u(s.SEK) == u(persist.SEK) && u(s.SVK) == u(persist.SVK)
@@ -105,24 +116,28 @@ package kex
 //@   ensures @params ? err == nil ==> imp(len(persist.ParamA) > 0, s.a != nil && BigVal(u(s.a)) == BigOf(bytes(persist.ParamA))) && imp(len(persist.ParamXA) > 0, s.xA != nil && BigVal(u(s.xA)) == BigOf(bytes(persist.ParamXA))) && imp(len(persist.ParamB) > 0, s.b != nil && BigVal(u(s.b)) == BigOf(bytes(persist.ParamB))) && imp(len(persist.ParamXB) > 0, s.xB != nil && BigVal(u(s.xB)) == BigOf(bytes(persist.ParamXB)))
 
 //@ func kex.ECDHSession.MarshalCBOR
+//@   params s
 //@   props C14 C18 C10(sweep)
 //@   sweep bounds,panic,make
 //@   callsites Marshal 1
 //@   callassert Marshal#1: @all u(unwrap(arg0)) == tuple(s.randSize, s.xA, s.xB, keyBytes, s.ID, s.SEK, s.SVK)
 
 //@ func kex.ECDHSession.UnmarshalCBOR
+//@   params s data
 //@   props C14 C18 C10(sweep)
 //@   sweep bounds,make
 //@   ensures @crypter ? err == nil ==> s.ID == persist.Cipher && u(s.Cipher) == SuiteOf(u(persist.Cipher)) && u(s.SEK) == u(persist.SEK) && u(s.SVK) == u(persist.SVK)
 //@   ensures @params ? err == nil ==> s.randSize == persist.RandSize && u(s.xA) == u(persist.ParamA) && u(s.xB) == u(persist.ParamB) && u(s.priv) == u(key)
 
 //@ func kex.OAEPSession.MarshalCBOR
+//@   params s
 //@   props C14 C18 C10(sweep)
 //@   sweep bounds,panic,make
 //@   callsites Marshal 1
 //@   callassert Marshal#1: @all u(unwrap(arg0)) == tuple(s.paramSize, s.xA, s.xB, s.ID, s.SEK, s.SVK)
 
 //@ func kex.OAEPSession.UnmarshalCBOR
+//@   params s data
 //@   props C14 C18 C10(sweep)
 //@   sweep bounds,make
 //@   ensures @crypter ? err == nil ==> s.ID == persist.Cipher && u(s.Cipher) == SuiteOf(u(persist.Cipher)) && u(s.SEK) == u(persist.SEK) && u(s.SVK) == u(persist.SVK)
@@ -134,11 +149,14 @@ package kex
 // ASYMKEX3072, P-256 -> ECDH256, P-384 -> ECDH384; everything else is refused.
 // The flags are the function's own classification of the two keys; they are pinned
 // to the inputs by the clauses below the table.
+//@ spec ghost validatedfor
 //@ func kex.Suite.Valid
+//@   params s device owner
 //@   props C09 C10(sweep)
 //@   sweep bounds,panic,make,nilmem
 //@   pure
 //@   ensures! result == SuiteValid(u(s), u(device), u(owner))
+//@   ghostpost validatedfor(owner) := ite(result, u(s), u(0))
 //@   ensures @rsadevice ? deviceIsRSA ==> result
 //@   ensures @table ? !deviceIsRSA ==> result == ((deviceIsP256 || deviceIsP384) && ((ownerIsRSA2048 && (s == "DHKEXid14" || s == "ASYMKEX2048")) || (ownerIsRSA3072 && (s == "DHKEXid15" || s == "ASYMKEX3072")) || (ownerIsP256 && s == "ECDH256") || (ownerIsP384 && s == "ECDH384")))
 //@   ensures @devkind dyntype(device, "*rsa.PublicKey") ==> result
@@ -153,32 +171,57 @@ package kex
 // nothing can be decrypted before the exchange completed: Decrypt rejects keys of the
 // wrong length), carries the requested cipher and the parameter size of its suite ----
 //@ func kex.init@ecdh.go$1
+//@   params xA cipher
 //@   props C02 C14 C10(sweep)
 //@   sweep bounds,panic,make,nilmem
 //@   ensures @nokeys len(unwrap(result).SEK) == 0 && len(unwrap(result).SVK) == 0
 //@   ensures @suite unwrap(result).ID == cipher && unwrap(result).randSize == 16 && u(unwrap(result).xA) == u(xA)
 //@ func kex.init@ecdh.go$2
+//@   params xA cipher
 //@   props C02 C14 C10(sweep)
 //@   sweep bounds,panic,make,nilmem
 //@   ensures @nokeys len(unwrap(result).SEK) == 0 && len(unwrap(result).SVK) == 0
 //@   ensures @suite unwrap(result).ID == cipher && unwrap(result).randSize == 48 && u(unwrap(result).xA) == u(xA)
 //@ func kex.init@dh.go$1
+//@   params xA cipher
 //@   props C02 C14 C10(sweep)
 //@   sweep bounds,panic,make,nilmem
 //@   ensures @nokeys len(unwrap(result).SEK) == 0 && len(unwrap(result).SVK) == 0
 //@   ensures @suite unwrap(result).ID == cipher && unwrap(result).paramSize == 32 && unwrap(result).g == 2
 //@ func kex.init@dh.go$2
+//@   params xA cipher
 //@   props C02 C14 C10(sweep)
 //@   sweep bounds,panic,make,nilmem
 //@   ensures @nokeys len(unwrap(result).SEK) == 0 && len(unwrap(result).SVK) == 0
 //@   ensures @suite unwrap(result).ID == cipher && unwrap(result).paramSize == 96 && unwrap(result).g == 2
 //@ func kex.init@oaep.go$1
+//@   params xA cipher
 //@   props C02 C14 C10(sweep)
 //@   sweep bounds,panic,make,nilmem
 //@   ensures @nokeys len(unwrap(result).SEK) == 0 && len(unwrap(result).SVK) == 0
 //@   ensures @suite unwrap(result).ID == cipher && unwrap(result).paramSize == 32 && u(unwrap(result).xA) == u(xA)
 //@ func kex.init@oaep.go$2
+//@   params xA cipher
 //@   props C02 C14 C10(sweep)
 //@   sweep bounds,panic,make,nilmem
 //@   ensures @nokeys len(unwrap(result).SEK) == 0 && len(unwrap(result).SVK) == 0
 //@   ensures @suite unwrap(result).ID == cipher && unwrap(result).paramSize == 96 && u(unwrap(result).xA) == u(xA)
+
+// the second step of each exchange derives the keys for the session's own suite,
+// which the constructor took from the cipher registry (precondition on the session)
+//@ func kex.DHSession.SetParameter
+//@   params s xB _
+//@   props C14 C10(sweep)
+//@   sweep bounds,panic,make,nilmem,div
+//@   requires @suite suiteok(s.Cipher)
+//@ func kex.ECDHSession.SetParameter
+//@   params s xB _
+//@   props C14 C10(sweep)
+//@   sweep bounds,panic,make,nilmem,div
+//@   requires @suite suiteok(s.Cipher)
+//@ func kex.OAEPSession.SetParameter
+//@   params s xB ownerKey
+//@   props C14 C10(sweep)
+//@   sweep bounds,panic,make,nilmem,div
+//@   requires @suite suiteok(s.Cipher)
+//@   requires @randlen len(s.xA) <= 65535
